@@ -62,6 +62,11 @@ def initial_cases(tier, seed):
     for mol, cls in itertools.product(["He", "HF"], ["SDMX", "SDMX1", "SDMXG", "SDMXG1", "SDMXFull", "SDMX1-all", "SDMXG-all", "SDMXG1-all"]):
         for lam in lams:
             cases.append({"kind": "sdmx", "mol": mol, "cls": cls, "lam": lam})
+    # fractional-Laplacian (orbital) features: scalar, l=1 contractions, F^d contractions with a different number of F^d
+    # and l=1 vectors, F^dd; with and without the recommended normalisers
+    for mol, kind in itertools.product(["LiH", "HF"], ["FL0", "FL", "FLd", "FLd2"]):
+        for lam in lams:
+            cases.append({"kind": "nlof", "mol": mol, "cls": kind, "lam": lam})
     for fam in ("SL", "VJ", "VIJ", "VK", "SDMX1"):
         for lam in lams:
             cases.append({"kind": "energy", "mol": "HF", "fam": fam, "lam": lam})
@@ -374,6 +379,77 @@ def run_sdmx(case):
     return {"fail": fails, "evals": 2, "outcome": [ck, lam, measured]}
 
 
+class _PointGrid:
+    def __init__(self, mol, coords):
+        self.mol, self.coords, self.weights = mol, np.ascontiguousarray(coords), np.ones(len(coords))
+        self.non0tab, self.cutoff = None, 0
+
+
+def run_nlof(case):
+    """Fractional-Laplacian features through the package's own descriptor getter (orbital operators evaluated analytically
+    in the Gaussian basis, so the scaling relation holds to rounding): declared powers of every feature group, and power 0
+    after the recommended normalisation (normalisers applied to [rho, sigma, tau, features] of the same points)."""
+    from ciderpress.dft import settings as S
+    from ciderpress.dft.plans import SemilocalPlan
+    from ciderpress.pyscf.descriptors import _fl_desc_getter, _sl_desc_getter
+
+    from mc import fixtures as F
+
+    fails = []
+    lam = case["lam"]
+    ck = "mol=%s;cls=%s" % (case["mol"], case["cls"])
+    mol0, mol_l = _scaled_mol(case["mol"], lam)
+    st = F.nlof_settings(case["cls"])
+    usps = np.asarray(st.get_feat_usps(), dtype=float)
+    rng = np.random.RandomState(3)
+    coords = mol0.atom_coords()[rng.randint(0, mol0.natm, 16)] + rng.randn(16, 3) * 0.6
+    dm = F.make_dm(mol0, "D1", case["seed"])
+    f0 = np.asarray(_fl_desc_getter(mol0, _PointGrid(mol0, coords), dm, st))
+    fl = np.asarray(_fl_desc_getter(mol_l, _PointGrid(mol_l, coords / lam), dm, st))
+    measured = []
+    if f0.shape[0] != st.nfeat or len(usps) != st.nfeat:
+        fails.append({"key": "nlof-feature-count;%s" % ck, "msg": "%d features computed, %d declared, %d powers" % (f0.shape[0], st.nfeat, len(usps))})
+        return {"fail": fails, "evals": 2, "outcome": [ck, lam, "count"]}
+    for j in range(f0.shape[0]):
+        a, b = f0[j], fl[j]
+        big = np.abs(a) > 1e-6 * np.abs(a).max()
+        with np.errstate(all="ignore"):
+            u = np.log(np.abs(b[big] / a[big])) / np.log(lam)
+        um = float(np.median(u))
+        measured.append(float("%.6f" % um))
+        # measured spread on the unchanged tree: 2e-14
+        if not (abs(um - usps[j]) <= 1e-8 and np.abs(u - um).max() <= 1e-8):
+            fails.append({"key": "declared-power;nlof;%s;feat=%d" % (ck, j),
+                          "msg": "fractional-Laplacian feature %d is declared to scale as lambda^%g but scales as lambda^%.6f (spread %.1e, lambda=%g)" % (
+                              j, usps[j], um, np.abs(u - um).max(), lam)})
+    # recommended normalisation -> power 0
+    try:
+        fs = S.FeatureSettings(sl_settings=S.SemilocalSettings("nst"), nlof_settings=st)
+        fs.assign_reasonable_normalizer()
+    except NotImplementedError:
+        fs = None
+    if fs is not None and not fails:
+        def full(mol, c):
+            from pyscf.dft import numint as pnumint
+            ao = pnumint.eval_ao(mol, np.ascontiguousarray(c), deriv=1)
+            rho = pnumint.eval_rho(mol, ao, dm, xctype="MGGA", with_lapl=False)
+            x = np.empty((1, 3 + st.nfeat, len(c)))
+            x[0, 0] = rho[0]
+            x[0, 1] = (rho[1:4] ** 2).sum(0)
+            x[0, 2] = rho[-1]
+            return x
+        x0, xl = full(mol0, coords), full(mol_l, coords / lam)
+        x0[0, 3:], xl[0, 3:] = f0, fl
+        n0 = fs.normalizers.get_normalized_feature_vector(x0)[0, 3:]
+        nl_ = fs.normalizers.get_normalized_feature_vector(xl)[0, 3:]
+        for j in range(n0.shape[0]):
+            d = np.abs(n0[j] - nl_[j]).max() / (np.abs(n0[j]).max() + 1e-300)
+            if not d <= 1e-8:
+                fails.append({"key": "normalized-not-invariant;nlof;%s;feat=%d" % (ck, j),
+                              "msg": "normalised fractional-Laplacian feature %d changes by %.3e of its scale under uniform scaling with lambda=%g" % (j, d, lam)})
+    return {"fail": fails, "evals": 2, "outcome": [ck, lam, measured]}
+
+
 def run_energy(case):
     """E_x[n_lambda] = lambda E_x[n] for a model reading only scale-invariant features, LDA_X baseline."""
     from ciderpress.pyscf.gen_cider_grid import CiderGrids
@@ -418,4 +494,4 @@ def run_energy(case):
 
 def run_case(case):
     k = case["kind"]
-    return {"slplan": run_slplan, "expnt": run_expnt, "normclass": run_normclass, "usps": run_usps, "nldf": run_nldf, "sdmx": run_sdmx, "energy": run_energy}[k](case)
+    return {"slplan": run_slplan, "expnt": run_expnt, "normclass": run_normclass, "usps": run_usps, "nldf": run_nldf, "sdmx": run_sdmx, "nlof": run_nlof, "energy": run_energy}[k](case)
